@@ -11,8 +11,14 @@ import (
 )
 
 // HarnessCfg: per-harness settings (set by vrt directive calls at the start of the harness body).
+type ufSliceSpec struct {
+	sym    string
+	lenArg int
+}
+
 type HarnessCfg struct {
 	Name        string
+	UFSlice     map[string]ufSliceSpec
 	Cuts        map[string]int
 	UF          map[string]string
 	Unwind      int
@@ -176,6 +182,12 @@ func vrtIntrinsic(ex *Exec, fn *ssa.Function, args []Value, site string) Value {
 			ex.H.UF = map[string]string{}
 		}
 		ex.H.UF[ex.argStr(args[0])] = ex.argStr(args[1])
+		return Tuple{}
+	case "UFSlice": // UFSlice(fn, sym, lenArg): calls of fn return a fresh slice whose i-th element is SYM_i(scalar args)
+		if ex.H.UFSlice == nil {
+			ex.H.UFSlice = map[string]ufSliceSpec{}
+		}
+		ex.H.UFSlice[ex.argStr(args[0])] = ufSliceSpec{ex.argStr(args[1]), ex.argInt(args[2])}
 		return Tuple{}
 	case "Unwind":
 		ex.H.Unwind = ex.argInt(args[0])
